@@ -208,7 +208,7 @@ fn cycles_case(st: &mut Stats, seed: u64, n_cycles: u32) {
         reuses
     });
     let log = sh.take_log();
-    let meta = Meta { abnormal_end: false, dgram_cap: [16, 16], stream_is_bridge: false, sim: true };
+    let meta = Meta { abnormal_end: false, dgram_cap: [16, 16], stream_is_bridge: false, sim: true, ..Meta::default() };
     let an = monitors::analyse(&log, SPEC.fams, &meta);
     for (k, v) in &an.counters.c {
         st.count(k, *v);
@@ -256,7 +256,7 @@ pub fn run(p: &Params) -> (Stats, &'static str) {
             cycles_case(&mut st, seed, cycles);
         } else {
             let sc = streams::gen_scenario(seed, Profile::Abort);
-            let meta = Meta { abnormal_end: false, dgram_cap: [sc.cfg[0].dgram_buf, sc.cfg[1].dgram_buf], stream_is_bridge: false, sim: true };
+            let meta = Meta { abnormal_end: false, dgram_cap: [sc.cfg[0].dgram_buf, sc.cfg[1].dgram_buf], stream_is_bridge: false, sim: true, ..Meta::default() };
             let c = streams::execute(&mut st, &SPEC, &sc, &meta, "abort-profile");
             streams::record_coverage(&mut st, &sc, &c, &SPEC, seed);
         }
